@@ -70,6 +70,13 @@ def c_std(e):          # C13: first standard-form row: its first non-zero coeffi
     return e
 
 
+def c_std_between(e):  # C13: the LAST standard-form row (a bound row where there is one) relaxed by a quarter of a unit:
+    r = e["std"]["rows"][-1]          # no point of the grid {0, 1/2, 1, 2, 3} tells the difference, the exact comparison does
+    r["a"] = [4 * a for a in r["a"]]
+    r["b"] = 4 * r["b"] + 1
+    return e
+
+
 def c_render(e):       # C12: the recompiled linear model has another first right-hand side
     b = e["from_lm"]["lm"]["rows"][0]["b"]
     b["s"] = -b["s"] if b["s"] else 1
@@ -116,6 +123,8 @@ PLANS = [
      lambda e: e.get("out") == "ok" and e.get("rows"), c_lp),
     ("C13", "C13", os.path.join(core.SPEC, "std"), "StdFormTrace.tla", "StdFormTrace.cfg", "C13",
      lambda e: e.get("out") == "ok" and e.get("std", {}).get("rows"), c_std),
+    ("C13-between-grid", "C13", os.path.join(core.SPEC, "std"), "StdFormTrace.tla", "StdFormTrace.cfg", "C13",
+     lambda e: e.get("out") == "ok" and e.get("std", {}).get("rows") and any(v["hi"]["inf"] == 0 for v in e["vars"]), c_std_between),
     ("C12", "C12", os.path.join(core.SPEC, "render"), "RenderTrace.tla", "RenderTrace.cfg", "C12",
      lambda e: e.get("out") == "ok" and e.get("from_lm", {}).get("out") == "ok" and e["from_lm"]["lm"]["rows"], c_render),
     ("C20", "C20", os.path.join(core.SPEC, "solve"), "SolveTrace.tla", "SolveTrace.cfg", "C20",
@@ -141,7 +150,8 @@ def main():
         rej = len({r[2] for r in v.rejects})
         rej_clean = len({r[2] for r in clean.rejects if not str(r[3]).startswith("KNOWN-")})
         report[name] = {"events": len(evs), "rejected_when_clean": rej_clean, "rejected_when_one_field_corrupted": rej}
-        if rej < 0.5 * len(evs):   # (semantically neutral corruptions - a relaxed row of an infeasible model - are rightly accepted)
+        # (relaxing the last row by a quarter is neutral when the row is redundant or the model infeasible anyway)
+        if rej < (0.25 if "between" in name else 0.5) * len(evs):   # (semantically neutral corruptions - a relaxed row of an infeasible model - are rightly accepted)
             bad = True
     print(json.dumps(report, indent=1))
     json.dump(report, open(os.path.join(core.RUNS, "binding_selftest.json"), "w"), indent=1)
